@@ -192,10 +192,17 @@ class ConfigSpellings(Case):
                     out.append(("module-mapping", mods, sid))
         return out
 
-    def one(self, contexts, layout, carrier):
+    def one(self, contexts, layout, carrier, history=None):
         from pyvc import replay
 
         cfgm = replay.real_module("ioos_qc.config")
+        if history == "after-yaml-1.1":
+            # history: another, valid configuration written as a YAML 1.1 document was loaded before; what a
+            # later configuration means must not depend on it
+            try:
+                cfgm.Config("%YAML 1.1\n---\nstreams:\n  w:\n    qartod:\n      gross_range_test:\n        fail_span: [0, 10]\n")
+            except Exception:  # noqa: BLE001, S110
+                pass
         exp = expected_calls(contexts)
         for name, obj, sid in self.layouts(contexts):
             if name != layout:
@@ -257,9 +264,15 @@ class ConfigSpellings(Case):
             for (layout, _obj, _sid) in self.layouts(contexts):
                 for carrier in self.CARRIERS:
                     yield ("%s/%s" % (layout, carrier), self.region_of(contexts, layout), {"contexts": contexts, "layout": layout, "carrier": carrier}, (lambda c=contexts, la=layout, ca=carrier: self.one(c, la, ca)))
+        # plain scalars that YAML 1.1 and 1.2 read differently (NO, yes, on), after a YAML 1.1 document was loaded
+        odd = [{"streams": OrderedDict([("NO", {"qartod": {"gross_range_test": {"fail_span": [0, 10]}}}), ("on", {"qartod": {"location_test": {"bbox": [0, 0, 10, 10]}}})])}]
+        for (layout, _obj, _sid) in self.layouts(odd):
+            for carrier in ("dict", "yaml", "stringio", "path_yaml", "json"):
+                for hist in (None, "after-yaml-1.1"):
+                    yield ("%s/%s%s" % (layout, carrier, "/" + hist if hist else ""), self.region_of(odd, layout), {"contexts": odd, "layout": layout, "carrier": carrier, "history": hist}, (lambda c=odd, la=layout, ca=carrier, h=hist: self.one(c, la, ca, h)))
 
     def replay_bounded(self, label, values):
-        return self.one(values["contexts"], values["layout"], values["carrier"])
+        return self.one(values["contexts"], values["layout"], values["carrier"], values.get("history"))
 
 
 def cases():
